@@ -111,7 +111,7 @@ func plan(prop, tier string, ncpu int, budgetOverride float64) *propPlan {
 			assume: []string{"stated-domain exclusions honoured by construction: options are never nil, Patch values come only from DecodePatch, generated indices stay <= 2000", "a hang is defined as exceeding a quadratic step bound in the input size; slow-but-polynomial behaviour on deeply nested input is not reported", "memory exhaustion and stack overflow beyond nesting 10^4 are not reachable (Go offers no allocation-failure seam)"}}
 	case "C10":
 		return &propPlan{level: "exploration", real: append(commonReal, "the Go race detector (predictive use on a serialised execution: the simulator adds no happens-before edges of its own)"), stub: commonStub,
-			phases: [][]phase{{{engine: "conc", workers: ncpu / 2, budgetS: b(50, 1000), runs: 1 << 40}, {engine: "conc", race: true, workers: ncpu - ncpu/2, budgetS: b(50, 1000), runs: 1 << 40}}},
+			phases: [][]phase{{{engine: "conc", workers: ncpu / 2, budgetS: b(50, 1000), runs: 1 << 40, extra: sched(q)}, {engine: "conc", race: true, workers: ncpu - ncpu/2, budgetS: b(50, 1000), runs: 1 << 40, extra: sched(q)}}},
 			rule:   "Each scenario has 2-4 (rarely 8) caller tasks with 1-6 API calls each over shared read-only inputs (one or two Patches decoded before the tasks start, common documents) and private ones; it is executed once sequentially and then under several seeded schedules (uniform random pre-emption with p in {0.02,0.1,0.3,0.6}, PCT with 1-4 priority change points, site-class swarm), in a plain build and in a -race build whose detector sees only the library's own synchronisation. Oracles: every call equals its run-alone outcome; no race report; no deadlock; shared inputs and the shared Patch unchanged. An evaluation is one executed schedule; non-trivial = at least one context switch happened inside a library call while another task's call was in flight; distinct = distinct (scenario hash, full event trace hash incl. every switch).",
 			assume: []string{"pre-emption happens only at instrumented yield points (pool, sync.Map, wait-group, mutable package variables, every function entry and loop head of the jsonpatch packages); pre-emption inside uninstrumented standard-library code is not explored (races there are still detected)", "the race detector keeps a bounded access history per word: a race can be missed, never invented", "package defaults SupportNegativeIndices/AccumulatedCopySizeLimit are not written concurrently with calls (caller-side race, outside C10)"}}
 	case "C17":
@@ -126,6 +126,14 @@ func plan(prop, tier string, ncpu int, budgetOverride float64) *propPlan {
 			assume: []string{"the sandbox runs as root, so EACCES cannot be produced; /proc/self/mem stands in for a file that passes stat and fails read", "stdout closed/full and signals are not injected (the statement is silent about them)"}}
 	}
 	return nil
+}
+
+// sched: schedules executed per concurrent scenario (the thorough tier spends more on each scenario).
+func sched(quick bool) []string {
+	if quick {
+		return []string{"-schedules", "6"}
+	}
+	return []string{"-schedules", "20"}
 }
 
 func min(a, b int) int {
